@@ -23,6 +23,12 @@ type Obligation struct {
 	Reach  bool
 	Fields []fieldVar // scalar locations reachable from the parameters (entry values), for replay
 	Vars   []modelVar // terms whose model values are interesting for replay
+	// obligations raised at the same program point on the same path (all postconditions and frame conditions of one
+	// return) are first tried as ONE query: prefix ∧ (¬g1 ∨ … ∨ ¬gn); only if that is not unsat are they solved one by one
+	Batch       string
+	BatchPrefix string
+	NegDecls    []string
+	NegTerm     string
 }
 
 func (o *Obligation) Name() string {
@@ -203,6 +209,10 @@ func (s *State) top() *Frame { return s.frames[len(s.frames)-1] }
 // ---------- verification context for one function ----------
 
 type Ctx struct {
+	curBatch     string
+	batchSeq     int
+	batchMembers []*Obligation
+	batchGoalIdx []int
 	eng   *Engine
 	ar    *arith
 	fn    *ssa.Function
